@@ -246,39 +246,46 @@ Section Tokens.
 
   (** ** 3. [TsvNtTriplesYielder] *)
 
-  (** one line: [inl (Some t)] a triple.  A line that does not split into
-      three tokens is meant to be discarded ([error_triples += 1]), but the
-      message is logged with [log_msg(msg=..., source=...)] whereas the function
-      is [log_msg(verbose, msg, err)]: TypeError -- blank lines included.  A
-      [ValueError] of the token functions is caught by [except ValueError as ve]
-      whose handler reads [ve.message], which does not exist in Python 3:
-      AttributeError.  The tuple is evaluated left to right. *)
-  Definition tsv_line (l : str) : option mtriple + cerr :=
+  (** one line: a triple, a discarded line ([error_triples += 1]) or a line
+      skipped by the [ValueError] handler (not counted).  Two repaired spots,
+      whose shape [Gen.Consts] reports: when the discard message is logged by
+      a call that does not fit [log_msg(verbose, msg, err)]
+      ([c08_tsv_discard_log_fits = false]) every discarded line -- blank lines
+      included -- raises TypeError; when the handler reads [ve.message]
+      ([c08_tsv_handler_ok = false]) a [ValueError] of the token functions
+      becomes AttributeError.  The tuple is evaluated left to right. *)
+  Inductive tsv_out := TYield (t : mtriple) | TDiscard | TSkip.
+
+  Definition on_value_error (e : cerr) : tsv_out + cerr :=
+    match e with
+    | CEValue => if c08_tsv_handler_ok then inl TSkip else inr CEAttr
+    | _ => inr e
+    end.
+
+  Definition tsv_line (l : str) : tsv_out + cerr :=
     match split c08_tsv_sep (strip l) with
     | [t0; t1; t2] =>
       match tune_token false t0 with
-      | inr CEValue => inr CEAttr
-      | inr e => inr e
+      | inr e => on_value_error e
       | inl s =>
         match tune_prop t1 with
-        | inr CEValue => inr CEAttr
-        | inr e => inr e
+        | inr e => on_value_error e
         | inl p =>
           match tune_token c08_tsv_object_untyped_numbers t2 with
-          | inr CEValue => inr CEAttr
-          | inr e => inr e
-          | inl o => inl (Some (MT s p o))
+          | inr e => on_value_error e
+          | inl o => inl (TYield (MT s p o))
           end
         end
       end
-    | _ => inr CEType
+    | _ => if c08_tsv_discard_log_fits then inl TDiscard else inr CEType
     end.
 
-  Definition rd_of_line (x : option mtriple + cerr) : rd :=
+  Definition rd_of_line (x : tsv_out + cerr) : rd :=
     match x with
     | inr e => inr e
-    | inl (Some t) => inl (Res [t] 1 0)
-    | inl None => inl (Res [] 0 1)
+    | inl (TYield t) => inl (Res [t] 1 0)
+    | inl TDiscard => inl (Res [] 0 1)
+    | inl TSkip => inl (Res [] 0 0)
     end.
 
   Fixpoint read_tsv (lines : list str) : rd :=
@@ -300,19 +307,28 @@ Inductive rterm :=
 
 Record rtriple := RT { rt_s : rterm; rt_p : rterm; rt_o : rterm }.
 
-(** [_turn_into_model_literal] *)
+(** [_turn_into_model_literal].  Old shape ([c08_rdflib_literal_uses_decide]):
+    a literal without datatype is typed by [decide_literal_type] applied to the
+    content -- the bare lexical form for a plain literal.  New shape: by the
+    literal's own language. *)
 Definition turn_literal (l : rlit) : mterm + cerr :=
   let content := match rl_lang l with
                  | Some tag => Str """" ++ rl_lex l ++ Str """@" ++ tag
                  | None => rl_lex l
                  end in
-  match rl_dt l with
-  | Some dt => inl (MLit content dt)
-  | None => match decide_literal_type content with
-            | inl ty => inl (MLit content ty)
-            | inr e => inr e
-            end
-  end.
+  if c08_rdflib_literal_uses_decide then
+    match rl_dt l with
+    | Some dt => inl (MLit content dt)
+    | None => match decide_literal_type content with
+              | inl ty => inl (MLit content ty)
+              | inr e => inr e
+              end
+    end
+  else
+    match rl_lang l with
+    | Some _ => inl (MLit content c_LANG_STRING_TYPE)
+    | None => inl (MLit content (match rl_dt l with Some dt => dt | None => c_STRING_TYPE end))
+    end.
 
 (** [_turn_rdflib_token_into_model_obj]; the [else] branch builds its message
     with [str + type]: TypeError *)
@@ -394,15 +410,13 @@ Fixpoint first_branch (fmt : str) (cm : option str) (pres : list str)
   end.
 
 (** [_get_base_zip_archive_if_needed]: [inl None] no archive, [inl (Some n)]
-    n opened archives; iterating [list_of_source_files = None] is a TypeError *)
+    n opened archives; iterating [list_of_source_files = None] is a TypeError.
+    The first test is a disjunction ([c08_zip_none_if], one atom list per
+    disjunct): "not zip", and in the repaired shape also "nothing to unzip". *)
 Definition zip_archives (cm : option str) (k : skind) : option nat + cerr :=
-  match c08_zip_archives_guard with
-  | [g_not_zip; g_one] =>
-    if forallb (atom_holds [] cm (present k)) g_not_zip then inl None
-    else if forallb (atom_holds [] cm (present k)) g_one then inl (Some 1)
-    else match k with KFiles n => inl (Some n) | _ => inr CEType end
-  | _ => inr CESource
-  end.
+  if existsb (forallb (atom_holds [] cm (present k))) c08_zip_none_if then inl None
+  else if forallb (atom_holds [] cm (present k)) c08_zip_one_if then inl (Some 1)
+  else match k with KFiles n => inl (Some n) | _ => inr CEType end.
 
 (** what the factory returns *)
 Inductive ydesc :=
@@ -534,7 +548,10 @@ Section Channels.
         match cm with
         | None => inl stored
         | Some c =>
-          if raw then inr CEType                       (* gzip.open(None) / zip member None *)
+          if raw then
+            (* repaired shape: the compressed branch needs a source, a raw string is parsed as it is;
+               old shape: gzip.open(None) / zip member None *)
+            if c08_rdflib_compressed_needs_source then inl stored else inr CEType
           else if str_eqb c c_ZIP then inl stored      (* member content *)
           else codec cm stored
         end in
